@@ -964,7 +964,10 @@ func closureTargets(v ssa.Value, depth int, seen map[ssa.Value]bool) []*ssa.Func
 				return nil
 			}
 			tn, fname, _, _ := fieldOf(c)
-			for _, g := range theWorld.allFuncsInRepo() {
+			for g := range theWorld.allFuncs {
+				if p := pkgOfFunc(g); g.Blocks == nil || (p != theWorld.Parser && p != theWorld.Model && p != theWorld.Cmd) {
+					continue
+				}
 				forEachInstr(g, func(_ *ssa.BasicBlock, ins ssa.Instruction) {
 					st, ok := ins.(*ssa.Store)
 					if !ok {
@@ -995,6 +998,29 @@ func closureTargets(v ssa.Value, depth int, seen map[ssa.Value]bool) []*ssa.Func
 				}
 			})
 		}
+	case *ssa.Field:
+		// a member of a record value (an element of a table of handlers copied into a loop variable): every function stored into
+		// that member of that record type, anywhere in the repo (package initialisers included)
+		if theWorld == nil {
+			return nil
+		}
+		tn, fname, _, _ := fieldOf(x)
+		for g := range theWorld.allFuncs {
+			if p := pkgOfFunc(g); g.Blocks == nil || (p != theWorld.Parser && p != theWorld.Model && p != theWorld.Cmd) {
+				continue
+			}
+			forEachInstr(g, func(_ *ssa.BasicBlock, ins ssa.Instruction) {
+				st, ok := ins.(*ssa.Store)
+				if !ok {
+					return
+				}
+				if fa, ok := st.Addr.(*ssa.FieldAddr); ok {
+					if tn2, f2, _, _ := fieldOf(fa); tn2 == tn && f2 == fname {
+						add(closureTargets(st.Val, depth+1, seen))
+					}
+				}
+			})
+		}
 	}
 	return out
 }
@@ -1002,12 +1028,36 @@ func closureTargets(v ssa.Value, depth int, seen map[ssa.Value]bool) []*ssa.Func
 // calleesOfAll: the functions a call may enter: the static callee, or every target of the called function value.
 func calleesOfAll(c ssa.CallInstruction) []*ssa.Function {
 	if f := c.Common().StaticCallee(); f != nil {
-		return []*ssa.Function{f}
+		return []*ssa.Function{unwrapBound(f)}
 	}
 	if c.Common().IsInvoke() {
 		return nil
 	}
-	return closureTargets(c.Common().Value, 0, map[ssa.Value]bool{})
+	out := closureTargets(c.Common().Value, 0, map[ssa.Value]bool{})
+	for i, f := range out {
+		out[i] = unwrapBound(f)
+	}
+	return out
+}
+
+// unwrapBound: the method behind a method value (x.m used as a function): go/ssa represents it by a synthetic wrapper that has the
+// receiver as a captured variable and only forwards the call.
+func unwrapBound(f *ssa.Function) *ssa.Function {
+	if f == nil || !strings.HasPrefix(f.Synthetic, "bound method wrapper") {
+		return f
+	}
+	var tgt *ssa.Function
+	forEachInstr(f, func(_ *ssa.BasicBlock, ins ssa.Instruction) {
+		if c, ok := ins.(ssa.CallInstruction); ok {
+			if g := c.Common().StaticCallee(); g != nil {
+				tgt = g
+			}
+		}
+	})
+	if tgt != nil {
+		return tgt
+	}
+	return f
 }
 
 func closureTarget(v ssa.Value, depth int) *ssa.Function {
@@ -2351,6 +2401,7 @@ func (c *depCtx) recordFieldDeps(v ssa.Value, idx int, depth int) (d0 src, ok0 b
 		cc.bindParams = c.bindParams
 		var d src
 		n := 0
+		var rets []*ssa.BasicBlock
 		for _, b := range h.Blocks {
 			ret, ok := b.Instrs[len(b.Instrs)-1].(*ssa.Return)
 			if !ok || len(ret.Results) != 1 || !c.m.feasible(h, b, c.u) {
@@ -2362,6 +2413,13 @@ func (c *depCtx) recordFieldDeps(v ssa.Value, idx int, depth int) (d0 src, ok0 b
 			}
 			n++
 			d |= r
+			rets = append(rets, b)
+		}
+		// which of several returns is taken is itself a dependence: `if cfg.LittleEndian { return order{"LE"} }; return order{""}`
+		if len(rets) > 1 {
+			for _, b := range rets {
+				d |= cc.ctrlDeps(b)
+			}
 		}
 		return d, n > 0
 	case *ssa.UnOp:
